@@ -4,7 +4,7 @@
 Require Import ZArith List.
 Import ListNotations.
 Local Open Scope Z_scope.
-From EphVerif Require Import lib.Bytes model.ShamirModel proofs.ShamirProofs gen.Constants_shamir.
+From EphVerif Require Import lib.Bytes model.ShamirModel proofs.ShamirProofs proofs.GfPoly proofs.ShamirReconstruct gen.Constants_shamir.
 
 (* 1. the share arithmetic is a genuine field on the 256 byte values: (bytes, xor, gf_mul) *)
 Theorem c10_add_comm : forall a b, gf_add a b = gf_add b a.
@@ -68,20 +68,28 @@ Theorem c10_combine_total_on_good_sets : forall shares t, 0 <= t <= zlen shares 
 Proof. exact combine_total_on_good_sets. Qed.
 Print Assumptions c10_combine_total_on_good_sets.
 
-(* 4. THE reconstruction statement (full strength) -- NOT proved in general: *)
+(* 4. THE reconstruction statement (full strength), for every threshold: any t of the shares `split` hands out, with distinct
+   indices, in any order, whatever the random coefficients were, are combined into the secret *)
 Definition c10_reconstruct_statement : Prop :=
   forall secret t n rnd shares subset,
     length secret = 32%nat -> Forall byte_ok secret -> Forall byte_ok rnd -> 1 <= t <= n -> n <= 255 ->
     split secret t n rnd = Val shares ->
     zlen subset = t -> NoDup (map s_index subset) -> (forall s, In s subset -> In s shares) ->
     combine subset t = Val secret.
-(* what is proved of it: threshold 1 (the share is the secret).  For t >= 2 the Lagrange identity over the field of
-   section 1 (a polynomial of degree < t is determined by t points) is missing; reconstruction for t >= 2 is tied only by the
-   python Lagrange oracle on explored inputs (every t-subset order, t up to 255). *)
-Theorem c10_reconstruct_partial : forall x secret, length secret = 32%nat -> Forall byte_ok secret ->
+Theorem c10_reconstruct : c10_reconstruct_statement.
+Proof. exact reconstruct. Qed.
+Print Assumptions c10_reconstruct.
+(* the algebra behind it (proofs/GfPoly.v): over the field of section 1 a polynomial with at most as many coefficients as there
+   are distinct points is determined by its values there -- the Lagrange interpolant through those values agrees with it
+   everywhere; evaluate_polynomial is that polynomial's evaluation, interpolate the interpolant's value at 0 *)
+Theorem c10_interpolation_is_unique : forall pts p, (length p <= length pts)%nat -> distinct (map fst pts) ->
+  (forall x y, In (x, y) pts -> feq y (eval p x)) -> forall z, feq (eval (lag [] pts) z) (eval p z).
+Proof. exact lagrange_unique. Qed.
+Print Assumptions c10_interpolation_is_unique.
+(* threshold 1 as a special case (the share is the secret) *)
+Theorem c10_reconstruct_threshold_1 : forall x secret, length secret = 32%nat -> Forall byte_ok secret ->
   combine [{| s_index := x; s_value := secret |}] 1 = Val secret.
 Proof. exact reconstruct_threshold_1. Qed.
-Print Assumptions c10_reconstruct_partial.
 
 (* non-vacuity: 3-of-5 over a two-byte pattern, shares 5,2,4 reconstruct *)
 Example c10_example :
